@@ -1,8 +1,12 @@
 #!/bin/sh
-# runs the repository's 120-test baseline with the verification guard OFF (plain upstream build)
+# runs the repository's 120-test baseline with the verification guard OFF (plain upstream build of
+# /repo's current working tree in a scratch build directory, removed afterwards)
 set -e
 B=$(mktemp -d /var/tmp/yaep-baseline.XXXXXX)
 trap 'rm -rf "$B"' EXIT
-cmake -G Ninja -S /repo -B "$B" -DCMAKE_BUILD_TYPE=RelWithDebInfo >/dev/null
-cmake --build "$B" >/dev/null
-ctest --test-dir "$B" -j8 --timeout 900 -R '^yaep(\+\+)?-test' 2>&1 | tail -5
+cmake -G Ninja -S /repo -B "$B" -DCMAKE_BUILD_TYPE=RelWithDebInfo >/dev/null 2>&1
+# yaep.c #includes the bison output; generate it before the parallel build starts
+cmake --build "$B" --target sgramm_c >/dev/null 2>&1
+# the compare_parsers targets have build-order races in a fresh tree (they are not part of the baseline): keep going, then retry once
+cmake --build "$B" -- -k 0 >"$B/build.log" 2>&1 || cmake --build "$B" -- -k 0 >>"$B/build.log" 2>&1 || true
+ctest --test-dir "$B" -j8 --timeout 900 -R '^yaep(\+\+)?-test' 2>&1 | tail -4
